@@ -51,7 +51,15 @@ func (p *Prog) Routine(d *Disc, e *GoEntry) *Routine {
 					}
 					visit(c)
 				case *ssa.MakeClosure:
-					if cf, ok := x.Fn.(*ssa.Function); ok {
+					if cf, ok := x.Fn.(*ssa.Function); ok && !isGoOnlyClosure(cf) {
+						if t := p.wrapperTarget(cf); t != nil {
+							cf = t
+							if recv := t.Signature.Recv(); recv != nil {
+								if od := discOf[namedOrigin(recv.Type())]; od != nil && od != d {
+									continue // a method of an owned sub-discipline handed on as a value
+								}
+							}
+						}
 						visit(cf)
 					}
 				}
